@@ -103,8 +103,9 @@ def d1_entry(facts, rep):
                     res = v['v']
         ne = nonnull_edges(fn, res) if res is not None else set()
         nu = null_edges(fn, res) if res is not None else set()
+        out_param = set(p['v'] for p in fn.d.get('params', []) if p['ty'].replace(' ', '') == 'void**')
         st = [(p, s) for p, s, l, r in assignments(fn) if fn.n(fn.strip(l)).get('k') == 'unop' and fn.n(fn.strip(l))['op'] == '*' and
-              fn.n(fn.strip(fn.n(fn.strip(l))['sub'])).get('n') == 'memptr']
+              fn.n(fn.strip(fn.n(fn.strip(l))['sub'])).get('v') in out_param]
         ok = bool(st) and bool(ne) and all(dominated_by_edges(fn, p, ne)[0] for p, _ in st)
         rep.ob('D1', 'K13', fn, '*memptr is written only on success', ok, '*memptr modified although the call fails')
         ok2 = bool(nu)
